@@ -103,6 +103,12 @@ pub fn check(c: &Case, cs: &mut CaseStats) -> Result<(), String> {
     let vi = obs::integrator(c, c.mask.as_deref());
     let via = obs::observe(&Voronoi::from(&vi));
     interesting |= check_structure(&via, "via integrator", cs, &constructed)?;
+    if c.dim == 3 {
+        // third route: the integrator whose cells store their faces
+        let via_wf = obs::observe(&Voronoi::from(&vi.clone().with_faces()));
+        interesting |= check_structure(&via_wf, "via integrator.with_faces()", cs, &constructed)?;
+        cs.label("with-faces-route");
+    }
     let shifted = direct.faces.iter().filter(|f| f.shift.is_some()).count();
     cs.count("shifted_faces", shifted as u64);
     if interesting || (c.periodic && shifted > 0) {
@@ -117,7 +123,7 @@ pub fn check(c: &Case, cs: &mut CaseStats) -> Result<(), String> {
 pub fn def() -> PropDef {
     PropDef {
         id: "C12",
-        rule: "cases: all families x masks (none, all-true, all-false, single, complement, prefix, Bernoulli 0.1/0.5/0.9), dims 1-3, periodic or not, n to 600 (quick) / 2000 (thorough), both routes (Voronoi::build(_partial) and Voronoi::from(&VoronoiIntegrator)); oracle (model): the expected structure rebuilt from faces() alone - cell i lists exactly {f: left(f)=i} U {f: right(f)=i, no shift}, duplicate free; offsets = prefix sums of counts; total = array length; face_indices = the slice; neighbour_ids duplicate free, never the cell itself, equal to the other sides of the listed interior unshifted faces, also for unconstructed cells. non-trivial: (some unconstructed cell lists >= 1 face) or (periodic with >= 1 shifted face); distinct by case hash.",
+        rule: "cases: all families x masks (none, all-true, all-false, single, complement, prefix, Bernoulli 0.1/0.5/0.9), dims 1-3, periodic or not, n to 600 (quick) / 2000 (thorough), both routes (Voronoi::build(_partial) and Voronoi::from(&VoronoiIntegrator)); oracle (model): the expected structure rebuilt from faces() alone - cell i lists exactly {f: left(f)=i} U {f: right(f)=i, no shift}, duplicate free; offsets = prefix sums of counts; total = array length; face_indices = the slice; neighbour_ids duplicate free, never the cell itself, equal to the other sides of the listed interior unshifted faces, also for unconstructed cells. non-trivial: (some unconstructed cell lists >= 1 face) or (periodic with >= 1 shifted face); distinct by case hash. In 3D the structure of Voronoi::from(&integrator.with_faces()) is checked as a third route.",
         strategy,
         check,
         cases: |t| t.pick(5000, 250_000),
